@@ -48,4 +48,118 @@ theorem C08_krovak_lat_fixed (c : KrovakC ℝ) (lat : ℝ) (hk : 0 < c.k) (ha : 
   rw [hk1, ht, arctan_tan (by linarith [pi_pos]) h2]
   ring
 
+/-- the oblique-pole rotation of the Krovak forward and its inverse (pure spherical trigonometry) -/
+theorem krovak_rotation (u dv ad : ℝ) (hu : |u| < π / 2) (hdv : |dv| ≤ π / 2)
+    (hA : |cos ad * sin u + sin ad * cos u * cos dv| < 1)
+    (hC : 0 ≤ cos ad * cos u * cos dv - sin ad * sin u) :
+    let ss := arcsin (cos ad * sin u + sin ad * cos u * cos dv)
+    let dd := arcsin (cos u * sin dv / cos ss)
+    0 < cos ss ∧ arcsin (cos ad * sin ss - sin ad * cos ss * cos dd) = u ∧
+      arcsin (cos ss * sin dd / cos u) = dv := by
+  intro ss dd
+  obtain ⟨hu1, hu2⟩ := abs_lt.mp hu
+  obtain ⟨hd1, hd2⟩ := abs_le.mp hdv
+  obtain ⟨hA1, hA2⟩ := abs_lt.mp hA
+  set A := cos ad * sin u + sin ad * cos u * cos dv with hAdef
+  set C := cos ad * cos u * cos dv - sin ad * sin u with hCdef
+  set B := cos u * sin dv with hBdef
+  have hcu : 0 < cos u := cos_pos_of_mem_Ioo ⟨hu1, hu2⟩
+  have hid : A ^ 2 + B ^ 2 + C ^ 2 = 1 := by
+    rw [hAdef, hBdef, hCdef]
+    have e1 := sin_sq_add_cos_sq u
+    have e2 := sin_sq_add_cos_sq dv
+    have e3 := sin_sq_add_cos_sq ad
+    have : sin u ^ 2 = 1 - cos u ^ 2 := by linarith
+    have h2 : sin dv ^ 2 = 1 - cos dv ^ 2 := by linarith
+    have h3 : sin ad ^ 2 = 1 - cos ad ^ 2 := by linarith
+    ring_nf
+    rw [this, h2, h3]; ring
+  have hsinss : sin ss = A := sin_arcsin hA1.le hA2.le
+  have h1A : 0 < 1 - A ^ 2 := by nlinarith
+  have hcosss : cos ss = sqrt (1 - A ^ 2) := cos_arcsin A
+  have hcs : 0 < cos ss := by rw [hcosss]; exact Real.sqrt_pos.mpr h1A
+  have hcs2 : cos ss ^ 2 = 1 - A ^ 2 := by rw [hcosss, Real.sq_sqrt h1A.le]
+  -- z = B / cos ss is in [-1, 1]
+  have hz2 : (B / cos ss) ^ 2 ≤ 1 := by
+    rw [div_pow, hcs2, div_le_one h1A]; nlinarith [sq_nonneg C]
+  have hzabs : |B / cos ss| ≤ 1 := by
+    have := abs_le_one_iff_mul_self_le_one.mpr (by nlinarith : B / cos ss * (B / cos ss) ≤ 1)
+    exact this
+  obtain ⟨hz1, hz2'⟩ := abs_le.mp hzabs
+  have hsindd : sin dd = B / cos ss := sin_arcsin hz1 hz2'
+  have hcosdd : cos dd = C / cos ss := by
+    rw [show dd = arcsin (B / cos ss) from rfl, cos_arcsin]
+    have : 1 - (B / cos ss) ^ 2 = (C / cos ss) ^ 2 := by
+      rw [div_pow, div_pow, hcs2]; field_simp; nlinarith [hid]
+    rw [this, Real.sqrt_sq (div_nonneg hC hcs.le)]
+  refine ⟨hcs, ?_, ?_⟩
+  · have : cos ad * sin ss - sin ad * cos ss * cos dd = sin u := by
+      rw [hsinss, hcosdd, show sin ad * cos ss * (C / cos ss) = sin ad * C by field_simp, hAdef, hCdef]
+      have e3 := sin_sq_add_cos_sq ad
+      have : sin ad ^ 2 = 1 - cos ad ^ 2 := by linarith
+      ring_nf; rw [this]; ring
+    rw [this, arcsin_sin hu1.le hu2.le]
+  · have : cos ss * sin dd / cos u = sin dv := by
+      rw [hsindd, show cos ss * (B / cos ss) = B by field_simp, hBdef]; field_simp
+    rw [this, arcsin_sin hd1 hd2]
+
+/-- **krovak_sphere_chain_inv**: the closed-form part of the Krovak pair.  For a position whose
+intermediate quantities stay on the principal branches (`|u| < π/2`, `|δ| ≤ π/2`, the rotated point on
+the near hemisphere, `s/2 + S45 ∈ (0, π/2)`), the inverse applied to the forward output recovers the
+longitude EXACTLY and runs its latitude iteration at exactly the forward's conformal latitude `u(φ)` —
+of which the true `φ` is a fixed point (`C08_krovak_lat_fixed`). -/
+theorem C08_krovak_sphere_chain_inv (c : KrovakC ℝ) (hcz : c.sr.czech = false) (hn : c.n = sin s0K)
+    (hn0 : 0 < c.n) (hro0 : 0 < c.ro0) (hal : c.alfa ≠ 0) (lon lat : ℝ) (hdl : |lon - c.sr.long0| ≤ sPi)
+    (hu : |krovakU c lat| < π / 2) (hdv : |(-(lon - c.sr.long0)) * c.alfa| ≤ π / 2)
+    (hA : |cos c.ad * sin (krovakU c lat) + sin c.ad * cos (krovakU c lat) * cos ((-(lon - c.sr.long0)) * c.alfa)| < 1)
+    (hC : 0 ≤ cos c.ad * cos (krovakU c lat) * cos ((-(lon - c.sr.long0)) * c.alfa) - sin c.ad * sin (krovakU c lat))
+    (hs1 : 0 < arcsin (cos c.ad * sin (krovakU c lat) + sin c.ad * cos (krovakU c lat) * cos ((-(lon - c.sr.long0)) * c.alfa)) / 2 + s45)
+    (hs2 : arcsin (cos c.ad * sin (krovakU c lat) + sin c.ad * cos (krovakU c lat) * cos ((-(lon - c.sr.long0)) * c.alfa)) / 2 + (s45 : ℝ) < π / 2) :
+    ∃ y0 : ℝ, (fwdKrovak c lon lat).map (fun q => invKrovakVals c q.1 q.2) =
+      .ok (lon, (if (krovakLatLoop c (krovakU c lat) 15 (krovakU c lat) y0 0).2 ≥ 15 then none
+                 else some (krovakLatLoop c (krovakU c lat) 15 (krovakU c lat) y0 0).1)) := by
+  set U := krovakU c lat with hU
+  set dv := (-(lon - c.sr.long0)) * c.alfa with hdvdef
+  obtain ⟨hcs, hurec, hdvrec⟩ := krovak_rotation U dv c.ad hu hdv hA hC
+  set ss := arcsin (cos c.ad * sin U + sin c.ad * cos U * cos dv) with hss
+  set dd := arcsin (cos U * sin dv / cos ss) with hdd
+  have hpi : (3.14 : ℝ) < π := pi_gt_d2
+  have ht0 : 0 < tan (s0half45 : ℝ) := by
+    apply tan_pos_of_pos_of_lt_pi_div_two <;> simp only [s0half45] <;> norm_num <;> linarith
+  have hts : 0 < tan (ss / 2 + s45) := tan_pos_of_pos_of_lt_pi_div_two hs1 hs2
+  set ro := c.ro0 * tan s0half45 ^ c.n / tan (ss / 2 + s45) ^ c.n with hro
+  have hro_pos : 0 < ro := div_pos (mul_pos hro0 (rpow_pos_of_pos ht0 _)) (rpow_pos_of_pos hts _)
+  refine ⟨ro * sin (c.n * dd) / 1 * -1 * -1, ?_⟩
+  simp only [fwdKrovak, invKrovakVals, hcz, Bool.not_false, if_true, adjustLon_id hdl, Except.map,
+    sin_real, cos_real, tan_real, asin_real, atan_real, atan2_real, pow_real, sqrt_real, lit_one, lit_two]
+  have hUexp : 2 * (arctan (c.k * tan (lat / 2 + s45) ^ c.alfa /
+      ((1 + c.sr.e * sin lat) / (1 - c.sr.e * sin lat)) ^ (c.alfa * c.sr.e / 2)) - s45) = U := by
+    simp only [hU, krovakU, lit_one, lit_two]
+  simp only [hUexp, ← hdvdef, ← hss, ← hdd, ← hro]
+  set eps := c.n * dd with heps
+  have ec : ro * cos eps / 1 * -1 * -1 = ro * cos eps := by ring
+  have es : ro * sin eps / 1 * -1 * -1 = ro * sin eps := by ring
+  have hsq : sqrt (ro * cos eps * (ro * cos eps) + ro * sin eps * (ro * sin eps)) = ro := by
+    rw [add_comm]; exact sqrt_polar ro eps hro_pos
+  -- |eps| ≤ π/2 < π
+  have hn1 : c.n ≤ 1 := by rw [hn]; exact sin_le_one _
+  have hdd1 : -(π / 2) ≤ dd := neg_pi_div_two_le_arcsin _
+  have hdd2 : dd ≤ π / 2 := arcsin_le_pi_div_two _
+  have heps1 : -π < eps := by rw [heps]; nlinarith [pi_pos]
+  have heps2 : eps ≤ π := by rw [heps]; nlinarith [pi_pos]
+  have harg : Complex.arg ⟨ro * cos eps, ro * sin eps⟩ = eps := arg_polar ro eps hro_pos heps1 heps2
+  have hd : eps / sin s0K = dd := by rw [heps, ← hn]; field_simp
+  have hback : (c.ro0 / ro) ^ (1 / c.n) * tan s0half45 = tan (ss / 2 + s45) := by
+    have hq : c.ro0 / ro = (tan (ss / 2 + s45) / tan s0half45) ^ c.n := by
+      rw [hro, Real.div_rpow hts.le ht0.le]
+      have h1 : tan (s0half45 : ℝ) ^ c.n ≠ 0 := (rpow_pos_of_pos ht0 _).ne'
+      have h2 : tan (ss / 2 + s45) ^ c.n ≠ 0 := (rpow_pos_of_pos hts _).ne'
+      field_simp
+    rw [hq, ← Real.rpow_mul (div_pos hts ht0).le, mul_one_div_cancel hn0.ne', Real.rpow_one]
+    field_simp
+  have hatan : 2 * (arctan (tan (ss / 2 + s45)) - s45) = ss := by
+    rw [arctan_tan (by linarith [pi_pos]) hs2]; ring
+  have hlon : c.sr.long0 - dv / c.alfa = lon := by rw [hdvdef]; field_simp; ring
+  simp only [ec, es, hsq, harg, hd, hback, hatan, hurec, hdvrec, hlon]
+
 end GeomV.C08
